@@ -204,6 +204,13 @@ class CtorWorld(GraphWorld):
             for k, v in args[0].entries.items():
                 obj.obj.other.append(("node_attr_store", k, v, len(obj.obj.calls)))
             return NONE
+        if isinstance(obj, AttrOf) and isinstance(obj.obj, NewGraph) and obj.attr == "_node" and name == "update" and len(args) == 1 \
+                and not isinstance(args[0], DictObj):
+            seq = ip._seq(args[0], node)
+            if seq is not None and all(isinstance(x, (TupleV, ListObj)) and len(x.items) == 2 for x in seq):
+                for x in seq:
+                    obj.obj.other.append(("node_attr_store", x.items[0], x.items[1], len(obj.obj.calls)))
+                return NONE
         if isinstance(obj, NewGraph):
             if name == "add_interaction":
                 fn = self.all_methods[obj.cls]["add_interaction"]
